@@ -17,12 +17,42 @@ LEVEL = "exploration"
 TECHNIQUE = ("preview / apply differential per tree accessor on generated "
              "transforms; conflict resolution run to its fixpoint and checked "
              "for its two allowed endings")
-RULE = "see kinds"
-ASSUMPTIONS = []
-LEVEL_TEXT = "tbd"
-LEVEL_NOTE = "tbd"
+RULE = ("generated: (1) conflict-free transforms built from a model diff over "
+        "a committed 2a or git tree (create, delete, rename, re-parent, swap, "
+        "in-place kind change, content and exec change; all symlinks dangle); "
+        "(2) raw scripts of 1-12 TreeTransform calls (new_file/new_directory/"
+        "new_symlink under existing, new, deleted or non-directory parents, "
+        "delete_contents, unversion_file, adjust_path incl. onto existing "
+        "names and into own children, version_file, cancel_*, "
+        "set_executability, create_* over deleted contents), each call inside "
+        "the API's own preconditions but free to produce any raw conflict; "
+        "enumerated: three transforms on a tree with a symlink to a directory. "
+        "Raw conflicts go through resolve_conflicts; the preview is read "
+        "accessor by accessor, the transform applied and the applied tree "
+        "read the same way. Non-trivial: at least one raw conflict the "
+        "resolvers repaired, or a preview containing a moved entry (labelled "
+        "apart when it is a non-empty directory). Distinct by case hash.")
+ASSUMPTIONS = [
+    "a working tree answers NoSuchFile where a preview answers None for a "
+    "versioned entry without a file: for such entries only the versioning "
+    "facts are compared",
+    "git does not version directories: directory entries are not compared on "
+    "git trees",
+]
+LEVEL_TEXT = ("Differential between the preview tree and the tree after apply, "
+              "per path and per accessor (listing, kind, text, exec bit, "
+              "symlink target, file id, path2id, is_versioned, has_filename, "
+              "stored_kind, sha1, size), on sampled transforms; every "
+              "discrepancy is classified by accessor and by how the entry "
+              "relates to the original tree, so that the open defect classes "
+              "do not hide others. Conflict resolution is run to its end and "
+              "must finish conflict-free or with MalformedTransform and an "
+              "untouched tree.")
+LEVEL_NOTE = ("Sampled. 21 open finding signatures (9 root causes) are listed; "
+              "cases that hit a resolver crash end there, the rest of the "
+              "space is searched normally.")
 REGISTERED = False
-NONTRIVIAL_FLOOR = {"quick": 100, "thorough": 3000}
+NONTRIVIAL_FLOOR = {"quick": 150, "thorough": 5000}
 
 DELEGATING_ACCESSORS = {"exec": "is_executable", "has_filename": "has_filename",
                         "stored_kind": "stored_kind", "sha1": "get_file_sha1",
@@ -35,9 +65,7 @@ REPORT_LAST = tuple(
     for a in DELEGATING_ACCESSORS.values()) + (
     "C14/preview-wrong-at-path-reused-after-deletion",
     "C14/preview-get_file-looks-up-new-file-id-in-original-tree",
-    "C14/preview-lists-path-missing-after-apply:moved:git",
-    "C14/preview-lists-path-missing-after-apply:new:git",
-    "C14/applied-tree-has-path-missing-from-preview:git")
+    "C14/git-directory-move-leaves-children-at-old-index-paths")
 
 SIG_ATTR = {
     "kind": "kind", "stored_kind": "stored_kind", "versioned": "is_versioned",
@@ -48,19 +76,26 @@ SIG_ATTR = {
 }
 
 
-def compare(facts, pv, av, fmt="2a"):
+GIT_DIR_MOVE = "C14/git-directory-move-leaves-children-at-old-index-paths"
+
+
+def compare(facts, pv, av, fmt="2a", git_dir_move=False):
     """-> [(signature, detail)] preview view vs applied view."""
     out = []
     tag = ":git" if fmt == "git" else ""
     for p in sorted(set(pv) | set(av)):
         cls, deleg = facts.get(p, ("?", {}))
-        if p not in av:
-            out.append(("C14/preview-lists-path-missing-after-apply:" +
-                         cls + tag, [p, pv[p]]))
-            continue
-        if p not in pv:
-            out.append(("C14/applied-tree-has-path-missing-from-preview" + tag,
-                        [p, av[p]]))
+        if p not in av or p not in pv:
+            if git_dir_move:
+                # one root cause, many faces: see known_findings
+                out.append((GIT_DIR_MOVE, [p, pv.get(p), av.get(p)]))
+            elif p not in av:
+                out.append(("C14/preview-lists-path-missing-after-apply:" +
+                             cls + tag, [p, pv[p]]))
+            else:
+                out.append((
+                    "C14/applied-tree-has-path-missing-from-preview" + tag,
+                    [p, av[p]]))
             continue
         attrs = sorted(set(pv[p]) | set(av[p]))
         if av[p].get("has_filename") is False:
@@ -96,6 +131,10 @@ def compare(facts, pv, av, fmt="2a"):
     return out
 
 
+RESOLVABLE = {"duplicate", "duplicate id", "missing parent", "parent loop",
+              "versioning no contents"}
+
+
 def pick(found):
     rest = [f for f in found if f[0] not in REPORT_LAST]
     return (rest or found)[0]
@@ -105,11 +144,12 @@ def _fin(tt):
     """finalize(); the two documented 'cannot clean up' errors become a
     returned marker (callers that care look at control_leftovers)."""
     from breezy import errors
+    from breezy.transform import ImmortalLimbo
     try:
         tt.finalize()
     except errors.ImmortalPendingDeletion:
         return "pending-deletion"
-    except errors.ImmortalLimbo:
+    except ImmortalLimbo:
         return "limbo"
     return None
 
@@ -141,6 +181,13 @@ def check_case(case, env, build):
                 resolve_conflicts(tt)
             except MalformedTransform:
                 _fin(tt)
+                if set(kinds) <= RESOLVABLE:
+                    # each of these has a resolver that is documented to
+                    # repair it; giving up after 10 passes means a resolver
+                    # returned without changing the transform
+                    return violation(
+                        "C14/resolvable-conflicts-end-malformed:" +
+                        "+".join(kinds), [case, kinds])
                 return _unchanged(case, path, fs0, v0, ids,
                                   "malformed-after-resolution", kinds)
             except Exception as e:  # noqa: BLE001 - reported, never dropped
@@ -162,6 +209,10 @@ def check_case(case, env, build):
                     "C14/resolve_conflicts-returns-with-conflicts-left",
                     [case, kinds, sorted({c[0] for c in left})])
             label.append("resolved:" + "+".join(kinds))
+        # (git only) does the transform move a directory that has children?
+        git_dir_move = case["fmt"] == "git" and any(
+            tt.tree_kind(t) == "directory" and tt.path_changed(t)
+            for t in list(tt._tree_id_paths))
         preview = tt.get_preview_tree()
         pv = P.tree_view(preview, ids, ids)
         facts = {p: P.entry_facts(tt, preview, p) for p in pv}
@@ -191,11 +242,14 @@ def check_case(case, env, build):
         av = P.tree_view(wt2, ids, ids)
     except OSError as e:
         # the applied working tree cannot even be listed
+        if git_dir_move:
+            return violation(GIT_DIR_MOVE, [case, kinds, "unreadable: " +
+                                            str(e)[:200]])
         return violation(
             "C14/applied-tree-unreadable-after-apply:%s%s" % (
                 type(e).__name__, ":git" if case["fmt"] == "git" else ""),
             [case, kinds, str(e)[:200]])
-    found = compare(facts, pv, av, case["fmt"])
+    found = compare(facts, pv, av, case["fmt"], git_dir_move)
     moved_dir = any(c == "moved" and pv[p]["entry_kind"] == "directory" and
                     any(q.startswith(p + "/") for q in pv)
                     for p, c in classes.items())
@@ -352,8 +406,20 @@ def gen_script(draw):
     return {"fmt": fmt, "base": base, "extras": extras, "script": script}
 
 
+def enum_symlink_dir(tier):
+    base = [["add", "d-id", "root-id", "d", "directory", None, False],
+            ["add", "f-id", "d-id", "f", "file", "f\n", False],
+            ["add", "s-id", "root-id", "s", "symlink", "d", False]]
+    for ops in ([["add", "n-id", "root-id", "n", "file", "x\n", False]],
+                [["modify", "f-id", "changed\n"]],
+                [["rename", "f-id", "root-id", "g"]]):
+        yield {"fmt": "2a", "base": base, "ops": ops}
+
+
 def kinds(tier):
     return [
+        Kind("symlink-to-directory", run_diff, enumerate=enum_symlink_dir,
+             hash_cases=False),
         Kind("diff-transforms", run_diff, strategy=gen_diff(),
              examples={"quick": 400, "thorough": 15000}),
         Kind("raw-scripts", run_script, strategy=gen_script(),
